@@ -67,6 +67,7 @@ class Trace:
         self.end_seq = self.log[-1][0] if self.log else 0
         # child_of from harness dispatch records: first programmatic dispatch of x by a handler
         self.first_disp = {}
+        self.first_ok = {}
         self.child_of = {}
         self.disp_by = {}
         for d in self.dispatches:
@@ -76,6 +77,10 @@ class Trace:
             if ev not in self.first_disp:
                 self.first_disp[ev] = d
                 self.disp_by[ev] = who
+            # the tree is made of ACCEPTED dispatches: an event every dispatch of which was refused belongs to nobody's tree, and one that was
+            # refused first and accepted later is the child of whoever got it accepted
+            if outcome == 'ok' and ev not in self.first_ok:
+                self.first_ok[ev] = d
                 if who in self.who_info:
                     self.child_of[ev] = self.who_info[who][2]
         self.children = {}
@@ -92,7 +97,7 @@ class Trace:
                 continue
             out.add(x)
             for c in self.children.get(x, ()):
-                if upto_seq is None or self.first_disp[c][0] <= upto_seq:
+                if upto_seq is None or self.first_ok[c][0] <= upto_seq:
                     todo.append(c)
         return out
 
